@@ -11,6 +11,8 @@ import Mfi.Lemmas.TxLem
 import Mfi.Lemmas.ResL
 import Mfi.Lemmas.SkelL
 import Mfi.Lemmas.AccL
+import Mfi.Model.Risk
+import Mfi.Props.C09
 
 namespace Mfi.Props.C10
 open Mfi Mfi.Tx Mfi.Gen
@@ -371,5 +373,142 @@ example : (run demoTx (fun i => decide (i < 1000)) (fun _ => ⟨false, false, fa
 theorem premium_and_closeout_numbers :
     (Mfi.Gen.LIQUIDATION_BONUS_FEE_MINIMUM * 20 - Mfi.Fx.ONE).natAbs < 20 ∧
     Mfi.Gen.LIQUIDATION_CLOSEOUT_DOLLAR_THRESHOLD = 5 * Mfi.Fx.ONE := by decide
+
+/-! ### the numeric conditions at the end of the bracket (`end_liquidation` / `end_deleverage`)
+
+`Risk.endLiquidation` / `Risk.endDeleverage` model the end handlers' verdict from the start-of-bracket snapshot in the
+liquidation record and the portfolio at the end; the `health` family diffs that verdict against the REAL instructions
+through real dispatch (`risk.endliq` / `risk.enddelev` lines: snapshots chosen around the current valuation). -/
+
+section numeric
+open Mfi.Risk Mfi.Fx
+
+/-- what an accepted end of a receivership guarantees, whoever closes it -/
+theorem end_receivership_spec {pre : PreCache} {ps : List Pos} {ig : Bool} {seized repaid : Int}
+    (h : endReceivership pre ps ig = .ok (seized, repaid)) :
+    ∃ cm ce, components ps .maint = .ok cm ∧ components ps .equity = .ok ce ∧
+      pre.aMaint - pre.lMaint ≤ cm.assets - cm.liabs ∧
+      (ig = false → cm.assets - cm.liabs ≤ 0) ∧
+      seized = pre.aEq - ce.assets ∧ repaid = pre.lEq - ce.liabs := by
+  unfold endReceivership at h
+  obtain ⟨ph, hph, h⟩ := Res.bind_ok h
+  obtain ⟨⟨post, a, l⟩, hpl, h⟩ := Res.bind_ok h
+  obtain ⟨ce, hce, h⟩ := Res.bind_ok h
+  split at h
+  · cases h
+  rename_i hworse
+  obtain ⟨sz, hsz, h⟩ := Res.bind_ok h
+  obtain ⟨rp, hrp, h⟩ := Res.bind_ok h
+  injection h with h; injection h with h1 h2
+  unfold preLiquidation at hpl
+  obtain ⟨cm, hcm, hpl⟩ := Res.bind_ok hpl
+  obtain ⟨hh, hhh, hpl⟩ := Res.bind_ok hpl
+  have hsub : hh = cm.assets - cm.liabs := by
+    have := Mfi.Props.C09.rmath_ok hhh
+    unfold sub? chk at this
+    split at this
+    · injection this with this; exact this.symm
+    · cases this
+  have hphv : ph = pre.aMaint - pre.lMaint := by
+    unfold subOp at hph; split at hph
+    · injection hph with hph; exact hph.symm
+    · cases hph
+  have hszv : sz = pre.aEq - ce.assets := by
+    unfold subOp at hsz; split at hsz
+    · injection hsz with hsz; exact hsz.symm
+    · cases hsz
+  have hrpv : rp = pre.lEq - ce.liabs := by
+    unfold subOp at hrp; split at hrp
+    · injection hrp with hrp; exact hrp.symm
+    · cases hrp
+  split at hpl
+  · cases hpl
+  rename_i hnot
+  injection hpl with hpl; injection hpl with hp1 _
+  refine ⟨cm, ce, hcm, hce, ?_, ?_, ?_, ?_⟩
+  · omega
+  · intro hig
+    subst hig
+    simp at hnot
+    omega
+  · omega
+  · omega
+
+/-- **end_liquidation_spec**: an accepted `end_liquidation` means — maintenance health is no worse than in the snapshot
+    taken at the start; and unless the account's ASSETS were worth under five dollars at the start: health is not
+    positive, and the value seized is at most the value repaid times (1 + max(configured maximum, 5 %)). -/
+theorem end_liquidation_spec {pre : PreCache} {ps : List Pos} {fee seized repaid : Int}
+    (h : endLiquidation pre ps fee = .ok (seized, repaid)) :
+    ∃ cm ce, components ps .maint = .ok cm ∧ components ps .equity = .ok ce ∧
+      pre.aMaint - pre.lMaint ≤ cm.assets - cm.liabs ∧
+      seized = pre.aEq - ce.assets ∧ repaid = pre.lEq - ce.liabs ∧
+      (5 * ONE ≤ pre.aEq →
+        cm.assets - cm.liabs ≤ 0 ∧ seized ≤ wrap ((repaid * maxPremium fee) / ONE)) := by
+  unfold endLiquidation at h
+  simp only at h
+  obtain ⟨⟨sz, rp⟩, hend, h⟩ := Res.bind_ok h
+  simp only at h
+  split at h
+  · cases h
+  rename_i hprem
+  injection h with h; injection h with h1 h2
+  subst h1; subst h2
+  obtain ⟨cm, ce, hcm, hce, hworse, hpos, hs, hr⟩ := end_receivership_spec hend
+  refine ⟨cm, ce, hcm, hce, hworse, hs, hr, ?_⟩
+  intro hfive
+  have hth : Mfi.Gen.LIQUIDATION_CLOSEOUT_DOLLAR_THRESHOLD = 5 * ONE := by decide
+  have hig : decide (pre.aEq < Mfi.Gen.LIQUIDATION_CLOSEOUT_DOLLAR_THRESHOLD) = false := by
+    rw [hth]; simp; omega
+  rw [hig] at hprem hpos
+  refine ⟨hpos rfl, ?_⟩
+  simp at hprem
+  exact hprem
+
+/-- the premium factor is at least 1.05 whatever the fee state says, and exactly 1 + the configured maximum above that -/
+theorem max_premium_floor (fee : Int) :
+    ONE + Mfi.Gen.LIQUIDATION_BONUS_FEE_MINIMUM ≤ maxPremium fee ∧ ONE + fee ≤ maxPremium fee ∧
+    (maxPremium fee = ONE + fee ∨ maxPremium fee = ONE + Mfi.Gen.LIQUIDATION_BONUS_FEE_MINIMUM) := by
+  unfold maxPremium; omega
+
+/-- when the product does not leave the I80F48 range (any realistic dollar value), the bound is the plain one:
+    seized x 2^48 <= repaid x (1 + premium) (+ one ulp of rounding) -/
+theorem premium_bound_plain {seized repaid m : Int} (hr : inRange ((repaid * m) / ONE) = true)
+    (h : seized ≤ wrap ((repaid * m) / ONE)) : seized * ONE ≤ repaid * m := by
+  have hw : wrap ((repaid * m) / ONE) = (repaid * m) / ONE := by
+    unfold inRange at hr
+    simp only [Bool.and_eq_true, decide_eq_true_eq] at hr
+    unfold wrap
+    simp only
+    have h128 : (2:Int) ^ 128 = 340282366920938463463374607431768211456 := by decide
+    unfold Fx.MIN Fx.MAX at *
+    rw [h128]
+    by_cases hn : 0 ≤ (repaid * m) / ONE
+    · have : (repaid * m / ONE) % 340282366920938463463374607431768211456 = repaid * m / ONE := Int.emod_eq_of_lt hn (by omega)
+      rw [this]; split <;> omega
+    · have hneg : repaid * m / ONE < 0 := by omega
+      have : (repaid * m / ONE) % 340282366920938463463374607431768211456 = repaid * m / ONE + 340282366920938463463374607431768211456 := by
+        rw [Int.emod_def]
+        have hq : (repaid * m / ONE) / 340282366920938463463374607431768211456 = -1 := by omega
+        rw [hq]; omega
+      rw [this]; split <;> omega
+  rw [hw] at h
+  have := Int.ediv_mul_le (repaid * m) (show ONE ≠ 0 by decide)
+  calc seized * ONE ≤ (repaid * m / ONE) * ONE := Int.mul_le_mul_of_nonneg_right h (by decide)
+    _ ≤ repaid * m := this
+
+/-- an accepted `end_deleverage`: maintenance health is no worse than at the start -/
+theorem end_deleverage_spec {pre : PreCache} {ps : List Pos} {seized repaid : Int}
+    (h : endDeleverage pre ps = .ok (seized, repaid)) :
+    ∃ cm, components ps .maint = .ok cm ∧ pre.aMaint - pre.lMaint ≤ cm.assets - cm.liabs := by
+  obtain ⟨cm, _, hcm, _, hw, _⟩ := end_receivership_spec h
+  exact ⟨cm, hcm, hw⟩
+
+/-- (non-vacuity) a full close-out of a $10 account that repays $10 passes; the same seizure for $9 repaid is refused
+    for its premium; under five dollars of assets the premium is not tested -/
+example : endLiquidation ⟨5 * ONE, 10 * ONE, 10 * ONE, 10 * ONE⟩ [] 0 = .ok (10 * ONE, 10 * ONE) := by decide
+example : endLiquidation ⟨5 * ONE, 10 * ONE, 10 * ONE, 9 * ONE⟩ [] 0 = .error (.err Mfi.Gen.E.LiquidationPremiumTooHigh) := by decide
+example : endLiquidation ⟨2 * ONE, 10 * ONE, 4 * ONE, 1 * ONE⟩ [] 0 = .ok (4 * ONE, 1 * ONE) := by decide
+
+end numeric
 
 end Mfi.Props.C10
